@@ -676,6 +676,8 @@ func (w *Worker) runPath(prefix []Decision) (sum PathSummary, ps *pathState) {
 	w.i.ps = ps
 	w.i.depth = 0
 	w.i.panicSite = ""
+	w.i.randCount = 0
+	w.i.clock = 0
 	w.solver.Reset()
 	sum.Outcome = "ok"
 	func() {
